@@ -26,6 +26,10 @@ func Call(h string, xs ...*T) *T {
 	return &T{K: 'l', L: append([]*T{Sym(h)}, xs...)}
 }
 
+// Sugar makes Text write (syntaxQuote x), (unquote x) and (unquote-splicing x)
+// with the reader sugar ^x ~x ~@x.
+var Sugar = false
+
 func (t *T) IsSym(s string) bool { return t != nil && t.K == 'y' && t.S == s }
 
 func (t *T) Text() string {
@@ -45,6 +49,23 @@ func (t *T) write(sb *strings.Builder) {
 	case 'q':
 		sb.WriteString(t.S + ":")
 	case 'l', 'a':
+		if t.K == 'l' && len(t.L) == 2 && t.L[0].K == 'y' && Sugar {
+			// reader sugar (only when requested): ^x ~x ~@x
+			pre := ""
+			switch t.L[0].S {
+			case "syntaxQuote":
+				pre = "^"
+			case "unquote":
+				pre = "~"
+			case "unquote-splicing":
+				pre = "~@"
+			}
+			if pre != "" {
+				sb.WriteString(pre)
+				t.L[1].write(sb)
+				return
+			}
+		}
 		if t.K == 'l' {
 			sb.WriteByte('(')
 		} else {
@@ -122,6 +143,17 @@ func (p *tparser) one() *T {
 			}
 			t.L = append(t.L, p.one())
 		}
+	case c == '^' || c == '~':
+		head := "syntaxQuote"
+		p.i++
+		if c == '~' {
+			head = "unquote"
+			if p.i < len(p.s) && p.s[p.i] == '@' {
+				head = "unquote-splicing"
+				p.i++
+			}
+		}
+		return L(Sym(head), p.one())
 	case c == '"':
 		j := p.i + 1
 		for j < len(p.s) && p.s[j] != '"' {
